@@ -41,16 +41,18 @@ def main():
     failed = sum(int(re.search(r"(\d+) failed", l).group(1)) for l in lines if "test result" in l)
     res["suite_with_patch"] = {"passed": passed, "failed": failed, "errors": [l for l in lines if l.startswith("error")][:3], "wall_s": round(time.time() - t0)}
     # (4) demo with the patch
+    os.makedirs(os.path.dirname(f"{WT}/{demo_rel}"), exist_ok=True)
     shutil.copy(os.path.join(src, "demo.rs"), f"{WT}/{demo_rel}")
     r = sh(f"cd {WT} && cargo test -p {pkg} --offline --test {test_name} 2>&1 | tail -25", env=env)
     res["demo_with_patch_fails"] = ("test result: FAILED" in r.stdout) or ("panicked" in r.stdout and "test result: ok" not in r.stdout)
     res["demo_with_patch_tail"] = r.stdout[-600:]
     # (3) demo without the patch
     sh(f"git -C {WT} apply -R {os.path.abspath(src)}/patch.diff")
-    r = sh(f"cd {WT} && cargo test -p {pkg} --offline --test {test_name} 2>&1 | tail -8", env=env)
+    r = sh(f"cd {WT} && cargo test -p {pkg} --offline --test {test_name} 2>&1 | tail -12", env=env)
     res["demo_without_patch_passes"] = "test result: ok" in r.stdout and "FAILED" not in r.stdout
+    res["demo_without_patch_tail"] = r.stdout[-500:]
     os.remove(f"{WT}/{demo_rel}")
-    sh(f"git -C {WT} checkout -q -- .")
+    sh(f"git -C {WT} checkout -q -- . && git -C {WT} clean -fdq -e target")
     ok = res["patch_applies"] and failed == 0 and passed >= 246 and res["demo_with_patch_fails"] and res["demo_without_patch_passes"]
     res["confirmed"] = ok
     dst = f"/verif/seeded/{name}"
